@@ -64,7 +64,7 @@ cdef class DesDecimalType(Deserializer):
         cdef int32_t scale = unpack_num[int32_t](buf)
         unscaled = varint_unpack(&varint_buf)
 
-        return Decimal('%de%d' % (unscaled, -scale))
+        return Decimal('%de%d' % (unscaled, -(<int64_t>scale)))
 
 
 cdef class DesUUIDType(Deserializer):
